@@ -340,7 +340,7 @@ def harnesses(tier):
     return hs
 
 
-REEXPLORE_CAP = 6000
+REEXPLORE_CAP = 1000
 
 
 def install_gran(gran):
